@@ -1,3 +1,4 @@
+import ChipFiring.Theory.RemoveVertex
 import ChipFiring.Theory.GraphInv
 /-
   C13 — Graph bookkeeping (valences, edge total, genus) consistent over any history.
@@ -86,5 +87,12 @@ theorem removeVertex_pure (G : Graph n) (v : Nat) : gapply G (.remove v) = G := 
 example : ∃ G : Graph 3, Graph.new 3 false [(0, 1, 1), (1, 0, 1), (1, 2, 1), (2, 0, 1)] = .ok G ∧
     G.adj 0 1 = 2 ∧ G.val 1 = 3 ∧ G.total = 4 ∧ G.genus = 2 := by
   refine ⟨_, rfl, ?_, ?_, ?_, ?_⟩ <;> decide
+
+/-- `remove_vertex(v)` yields exactly the induced multigraph on the remaining vertices -/
+theorem remove_vertex_is_induced (G : Graph n) (hG : G.WF) (v x y : Fin n) :
+    (removeVertex G v).adj x y = if x = v ∨ y = v then 0 else G.adj x y := removeVertex_adj G hG v x y
+
+theorem remove_vertex_valences (G : Graph n) (hG : G.WF) (v x : Fin n) :
+    (removeVertex G v).val x = ∑ y, (if x = v ∨ y = v then 0 else G.adj x y) := removeVertex_val G hG v x
 
 end CF.C13
